@@ -22,6 +22,13 @@ SHAPES = [
     ("boxed", "pub struct T(Box<u8>);", "T", "0", "Box<u8>", "T(Box::new(s.u8()))", "Box::new(s.u8())"),
     ("boxed-slice", "pub struct T(Box<[u8]>);", "T", "0", "Box<[u8]>", "T(vec![s.u8(), s.u8()].into_boxed_slice())", "vec![s.u8(), s.u8(), s.u8()].into_boxed_slice()"),
     ("raw-ident", "pub struct T { r#type: u8 }", "T", "r#type", "u8", "T { r#type: s.u8() }", "s.u8()"),
+    # the field's type mentions `Self` on a generic type (Target must name the full type, generic arguments included)
+    ("self-in-field-type", "pub struct T<A> { v: (A, core::marker::PhantomData<fn() -> Self>) }", "T<u8>", "v", "(u8, core::marker::PhantomData<fn() -> T<u8>>)",
+     "T::<u8> { v: (s.u8(), core::marker::PhantomData) }", "(s.u8(), core::marker::PhantomData)"),
+    ("self-in-field-type-lifetime", "pub struct T<'a, A>(pub (A, core::marker::PhantomData<&'a Self>));", "T<'static, i8>", "0", "(i8, core::marker::PhantomData<&'static T<'static, i8>>)",
+     "T::<'static, i8>((s.i8(), core::marker::PhantomData))", "(s.i8(), core::marker::PhantomData)"),
+    # the struct comes out of a macro_rules! definition whose field type tokens are the caller's: the generated `self` must resolve all the same
+    ("macro-rules-field-type", "macro_rules! mk_t { ($n:ident, $f:ident, $($t:tt)*) => { __ATTRS__ pub struct $n { $f: $($t)* } } }\nmk_t!(T, inner, u8);", "T", "inner", "u8", "T { inner: s.u8() }", "s.u8()"),
     # the type's own where-clause must be kept next to explicit bound(..) arguments (list suffix after `|`)
     ("where+bound|, bound(A: Clone)", "pub struct T<A>(A) where A: Copy;", "T<u8>", "0", "u8", "T::<u8>(s.u8())", "s.u8()"),
     ("where+bound-empty|, bound()", "pub struct T<A: Copy> { v: A }", "T<i8>", "v", "i8", "T::<i8> { v: s.i8() }", "s.i8()"),
@@ -71,7 +78,8 @@ def run(tier):
                 desc = "shape=%s traits=%s entry=%s" % (sid, "+".join(traits), entry)
                 src = e1.HEADER.format(pid=PID, name=name, desc=desc)
                 la = ", ".join(traits) + suffix
-                src += ("#[derive_ex(%s)]\n" % la if entry == "attr" else "#[derive(Ex)]\n#[derive_ex(%s)]\n" % la) + item + "\n\n"
+                attrs = "#[derive_ex(%s)]\n" % la if entry == "attr" else "#[derive(Ex)]\n#[derive_ex(%s)]\n" % la
+                src += (item.replace("__ATTRS__", attrs.replace("\n", " ")) if "__ATTRS__" in item else attrs + item) + "\n\n"
                 # the second value is drawn independently and assumed equal, so that a write that lands elsewhere is visible
                 mp = MUT.format(fty=fty, acc=acc, val=val, val2=val) if "DerefMut" in traits else ""
                 src += CHECK.format(ty=ty, mk=mk, fty=fty, acc=acc, mut_part=mp)
